@@ -8,7 +8,7 @@ LEVEL = "proof"
 G_UNITS = {
     "bounds": ["WhereClauseBuilder::push_bounds_for_field", "FieldEntry::push_bounds_to", "HelperAttributes::push_bounds_to_raw", "DeriveEntry::push_bounds_to"],
     "builders": ["build_copy_for_struct", "build_copy_for_enum", "build_clone_for_struct", "build_clone_for_enum", "build_debug_expr",
-                 "build_debug_for_struct", "build_debug_for_enum", "build_default_ctor_args", "build_binary_op", "build_assign_op", "build_unary_op"],
+                 "build_debug_for_struct", "build_debug_for_enum", "build_default_ctor_args", "build_default_for_struct", "build_binary_op", "build_assign_op", "build_unary_op"],
     "cmp_bodies": ["build_partial_eq_body", "build_eq_body", "build_partial_ord_body", "build_ord_body", "build_hash_body", "build_compare_op", "build_partial_eq_expr", "build_eq_expr", "build_partial_ord_expr", "build_ord_expr", "build_hash_expr"],
     "cmp_select": ["build_partial_eq_expr", "build_eq_expr", "build_partial_ord_expr", "build_ord_expr", "build_hash_expr"],
 }
